@@ -29,7 +29,8 @@ def seq_documents(seqs):
 
 MALFORMED = [
     '@filter', '@filter()', '@filter(op: "=")', '@filter(value: ["$v"])', '@filter(op: "=", value: "$v")', '@filter(op: "=", value: [])', '@filter(op: "=", value: ["$v", "$w"])',
-    '@filter(op: "=", value: ["v"])', '@filter(op: "=", value: ["$"])', '@filter(op: "=", value: ["%"])', '@filter(op: "=", value: ["$1x"])', '@filter(op: "=", value: ["$a-b"])', '@filter(op: "=", value: [""])',
+    '@filter(op: "=", value: ["v"])', '@filter(op: "=", value: ["$"])', '@filter(op: "=", value: ["%"])', '@filter(op: "=", value: ["$1x"])', '@filter(op: "=", value: ["$a-b"])', '@filter(op: "=", value: [""])', '@filter(op: "=", value: ["émile"])', '@filter(op: "=", value: ["é"])', '@filter(op: "=", value: ["$é"])', '@filter(op: "=", value: ["%ü"])', '@filter(op: "=", value: ["$vé"])',
+    '@filter(op: "é", value: ["$v"])', '@output(name: "é")', '@tag(name: "ü")', '@output(name: "日本")',
     '@filter(op: "=", value: [1])', '@filter(op: "=", value: [null])', '@filter(op: 1, value: ["$v"])', '@filter(op: "nope", value: ["$v"])', '@filter(op: "is_null", value: ["$v"])', '@filter(op: "is_null", value: [])',
     '@filter(op: "=", value: ["$v"], extra: 1)', '@filter(op: "=", op: "=", value: ["$v"])', '@filter(op: "=", value: [["$v"]])', '@filter(op: "=", value: ["$v"]) @filter(op: "=", value: ["$v"])',
     '@filter(op: "=", value: ["%undefined_tag"])', '@filter(op: "<", value: ["$v"]) @filter(op: "regex", value: ["$v"])',
